@@ -15,9 +15,17 @@
    Reference:
      PosB(text, k)            the position of boundary k: line = number of line breaks that END at
                               or before k, character = UTF-16 units since the line start.
-     MidCRLF(text, k)         k lies strictly between a CR and its LF.  Two offsets share the line
-                              end there; PosOK accepts for it the end of the line (PosB) or the
-                              start of the next line (the break counted early): Unspecified.
+     MidCRLF(text, k)         k lies strictly between a CR and its LF.  CR LF is ONE line break, so
+                              this offset has no position of its own.  The conversion index ->
+                              position must give it the position of the NEXT offset that has one,
+                              the start of the next line (IdxPos): ends of ranges are exclusive,
+                              so the byte range [CR, mid) -- e.g. the parse error of `echo $`
+                              directly followed by CR LF -- must stay a non-empty position range
+                              that covers the break; rounding down to the CR's position would
+                              publish an empty range.  (Offsets inside a multi-byte character
+                              do not occur as ends of parse-error or completion ranges: out of
+                              the model.)
+     PosOK(text, k, l, c)     (l, c) is the position index -> position must report for boundary k.
      Required(text, l, c)     (l, c) is the position of some boundary k that is not MidCRLF; then
      IdxB(text, l, c)         is that k (unique: Injective) and the conversion MUST return it:
                               this is the round trip  IdxB(PosB(k)) = k.
@@ -66,8 +74,8 @@ SumUnits(text, a, b) == IF b <= a THEN 0 ELSE SumUnits(text, a, b - 1) + UnitsOf
 ChOfB(text, k)    == SumUnits(text, LineStartB(text, k), k)
 PosB(text, k)     == <<LineOfB(text, k), ChOfB(text, k)>>
 
-PosOK(text, k, l, c) == \/ <<l, c>> = PosB(text, k)
-                        \/ MidCRLF(text, k) /\ l = LineOfB(text, k) + 1 /\ c = 0
+IdxPos(text, k)      == IF MidCRLF(text, k) THEN <<LineOfB(text, k) + 1, 0>> ELSE PosB(text, k)
+PosOK(text, k, l, c) == <<l, c>> = IdxPos(text, k)
 
 Required(text, l, c) == \E k \in 0..Len(text) : ~MidCRLF(text, k) /\ PosB(text, k) = <<l, c>>
 IdxB(text, l, c)     == CHOOSE k \in 0..Len(text) : ~MidCRLF(text, k) /\ PosB(text, k) = <<l, c>>
@@ -87,8 +95,8 @@ PosTabUpTo(text, k) == IF k = 0 THEN << <<0, 0>> >>
                                 p == t[k]
                             IN Append(t, IF BreakEndsAt(text, k) THEN <<p[1] + 1, 0>> ELSE <<p[1], p[2] + UnitsOf(text[k])>>)
 PosTab(text) == PosTabUpTo(text, Len(text))
-PosOKT(text, tab, k, l, c) == \/ <<l, c>> = tab[k + 1]
-                              \/ MidCRLF(text, k) /\ l = tab[k + 1][1] + 1 /\ c = 0
+IdxPosT(text, tab, k)      == IF MidCRLF(text, k) THEN tab[k + 2] ELSE tab[k + 1]   \* mid-pair: the next boundary's
+PosOKT(text, tab, k, l, c) == <<l, c>> = IdxPosT(text, tab, k)
 RequiredT(text, tab, l, c) == \E k \in 0..Len(text) : tab[k + 1] = <<l, c>> /\ ~MidCRLF(text, k)
 IdxT(text, tab, l, c)      == CHOOSE k \in 0..Len(text) : tab[k + 1] = <<l, c>> /\ ~MidCRLF(text, k)
 
